@@ -182,6 +182,47 @@ def _callers(d):
     return c
 
 
+def wrap_container(arr, container, keep):
+    """The same values in another legal container: a (nested) list / tuple, a non-contiguous or negative-stride
+    view, a pandas Series with a shuffled non-default index.  `keep` collects the arrays whose memory the caller
+    still owns (checked for non-mutation)."""
+    if not container or arr.ndim != 1:
+        keep.append(arr)
+        return arr
+    if container in ("list", "tuple"):
+        if arr.dtype.kind in "fiU" and arr.dtype.itemsize == 8 or arr.dtype.kind == "U":
+            out = arr.tolist()
+            return out if container == "list" else tuple(out)
+        keep.append(arr)
+        return arr
+    ro = not arr.flags.writeable
+    if container == "strided":
+        base = np.empty(2 * len(arr), dtype=arr.dtype)
+        base[::2] = arr
+        base[1::2] = arr[::-1]
+        out = base[::2]
+    elif container == "negstride":
+        base = np.ascontiguousarray(arr[::-1])
+        out = base[::-1]
+    elif container == "series":
+        import pandas as pd
+
+        idx = (np.arange(len(arr)) * 7 + 3) % max(len(arr), 1) if len(arr) % 7 else np.arange(len(arr))[::-1]
+        base = np.array(arr, copy=True)
+        out = pd.Series(base, index=idx.astype(np.int64) if len(arr) else None, copy=False)
+        keep.append(base)
+        if ro:
+            base.flags.writeable = False
+        return out
+    else:
+        keep.append(arr)
+        return arr
+    if ro:
+        base.flags.writeable = False
+    keep.append(base)
+    return out
+
+
 _USER_SCORE_CLASSES = {}
 
 
@@ -234,9 +275,12 @@ def build_scores(spec, L=None):
         if spec.get("readonly"):
             scores.flags.writeable = False
             labels.flags.writeable = False
-        callers = _callers({"scores": scores, "labels": labels})
+        keep = []
+        cont = spec.get("container")
+        labels_in, scores_in = wrap_container(labels, cont, keep), wrap_container(scores, cont, keep)
+        callers = _callers({f"a{k_}": v_ for k_, v_ in enumerate(keep)})
         o = L.Scores.from_labels(
-            labels, scores, pos_label=plab,
+            labels_in, scores_in, pos_label=plab,
             nb_easy_pos=int(spec.get("nb_easy_pos", 0)), nb_easy_neg=int(spec.get("nb_easy_neg", 0)),
             score_class=spec.get("score_class", "pos"), equal_class=spec.get("equal_class", "pos"),
         )
@@ -262,9 +306,12 @@ def build_scores(spec, L=None):
         for _ in range(int(spec.get("swaps", 0))):
             o = o.swap()
         return o, callers
-    callers = _callers({"pos": pos, "neg": neg})
+    keep = []
+    cont = spec.get("container")
+    pos_in, neg_in = wrap_container(pos, cont, keep), wrap_container(neg, cont, keep)
+    callers = _callers({f"a{k_}": v_ for k_, v_ in enumerate(keep)})
     o = L.Scores(
-        pos, neg,
+        pos_in, neg_in,
         nb_easy_pos=int(spec.get("nb_easy_pos", 0)), nb_easy_neg=int(spec.get("nb_easy_neg", 0)),
         score_class=spec.get("score_class", "pos"), equal_class=spec.get("equal_class", "pos"),
         is_sorted=is_sorted,
@@ -308,15 +355,23 @@ def build_group_scores(spec, L=None):
         perm = np.asarray(spec.get("perm", list(range(len(labels)))), dtype=int)
         if len(perm) == len(labels) and not is_sorted:
             labels, scores, groups = labels[perm], scores[perm], groups[perm]
-        callers = _callers({"labels": labels, "scores": scores, "groups": groups})
-        o = L.GroupScores.from_labels(labels, scores, groups, pos_label=plab, is_sorted=is_sorted, **kw)
+        keep = []
+        cont = spec.get("container")
+        labels_in, scores_in, groups_in = (wrap_container(a_, cont, keep) for a_ in (labels, scores, groups))
+        callers = _callers({f"a{k_}": v_ for k_, v_ in enumerate(keep)})
+        o = L.GroupScores.from_labels(labels_in, scores_in, groups_in, pos_label=plab, is_sorted=is_sorted, **kw)
     else:
         names = spec.get("group_names")
         if names is not None:
             names = np.asarray(names, dtype=str if gdt == "str" else np.int64)
             callers["group_names"] = names
-        callers = _callers(callers)
-        o = L.GroupScores(pos, neg, pos_groups=pg, neg_groups=ng, group_names=names, is_sorted=is_sorted, **kw)
+        keep = []
+        cont = spec.get("container")
+        pos_in, neg_in, pg_in, ng_in = (wrap_container(a_, cont, keep) for a_ in (pos, neg, pg, ng))
+        if names is not None:
+            keep.append(names)
+        callers = _callers({f"a{k_}": v_ for k_, v_ in enumerate(keep)})
+        o = L.GroupScores(pos_in, neg_in, pos_groups=pg_in, neg_groups=ng_in, group_names=names, is_sorted=is_sorted, **kw)
     for _ in range(int(spec.get("swaps", 0))):
         o = o.swap()
     return o, callers
